@@ -148,6 +148,22 @@ def forRangeRetAux {α ρ σ : Type} (body : σ → Int → α → M (Ctl ρ σ)
 def forRangeRet {α ρ σ : Type} (xs : List α) (init : σ) (body : σ → Int → α → M (Ctl ρ σ)) : M (Ctl ρ σ) :=
   forRangeRetAux body xs 0 init
 
+def forLtRetAux {ρ σ : Type} (body : σ → Int → M (Ctl ρ σ)) : Nat → Int → σ → M (Ctl ρ σ)
+  | 0, _, s => pure (.next s)
+  | n + 1, i, s => do
+    match ← body s i with
+    | .ret r => pure (.ret r)
+    | .next s => forLtRetAux body n (i + 1) s
+
+/-- `for i := lo; i < hi; i++ { body }` whose body may `return` (`.ret`) or `continue`/fall through (`.next`) -/
+def forLtRet {ρ σ : Type} (lo hi : Int) (init : σ) (body : σ → Int → M (Ctl ρ σ)) : M (Ctl ρ σ) :=
+  forLtRetAux body (hi - lo).toNat lo init
+
+/-- `a && b` where `b` can fault: `b` is evaluated only when `a` holds -/
+def andAlso (a : Bool) (b : M Bool) : M Bool := if a then b else pure false
+/-- `a || b` where `b` can fault: `b` is evaluated only when `a` does not hold -/
+def orElse (a : Bool) (b : M Bool) : M Bool := if a then pure true else b
+
 /-- `float64(i)` -/
 def ofInt {α : Type} [RNum α] (i : Int) : α :=
   if 0 ≤ i then RNum.ofNat i.toNat else RNum.ofNat 0 - RNum.ofNat (-i).toNat
